@@ -205,7 +205,9 @@ def run(prog: Program) -> Results:
     callee_head_acceptance(prog, res, "R-C05-7", r7)
     creation_sees_inherits(prog, res, "R-C05-10")
     from sa.rules.c04 import filter_in_search
-    filter_in_search(prog, res, "R-C05-11")  # the attrpath root is found among the attrpath-derived bindings, whatever comes first
+    filter_in_search(prog, res, "R-C05-11")
+    from sa.rules.c04 import named_search_states_kind
+    named_search_states_kind(prog, res, "R-C05-13")  # the attrpath root is found among the attrpath-derived bindings, whatever comes first
     from sa.rules.c12 import check_reader
     res.rule("R-C05-12", "the NPath reader decodes what the documentation promises: inside a quoted segment every documented escape "
              "(`\\\\`, `\\\"`, …) decodes to the character it stands for, so a quoted path addresses the binding whose name it spells "
